@@ -341,8 +341,8 @@ func c16Latest(c *core.Ctx) {
 
 func init() {
 	register(&Property{
-		ID:    "C16",
-		Level: "other",
+		ID:          "C16",
+		Level:       "other",
 		Explanation: "Decides the structural necessary conditions of the injected-GER index: C16-cursor — the PP downloader's range fetch starts at its loop-carried cursor (start parameter or previous upper bound + 1), never at the freshly observed tip (the pinned tree violated this: fixed by commit 6642a29); C16-store — the ABI signatures of the two watched topics are those of the events their handlers parse (oracle: the ABI embedded in the contract binding), the handlers emit {BlockNum, GlobalExitRoot, L1InfoTreeIndex of the L1 info leaf looked up by that root, IsRemove}, the processor deletes by GER value only for removals and inserts the event's fields otherwise, both on the block's transaction; C16-query — the lookup statement selects the minimum l1_info_tree_index >= $1 bound to the argument; primary key (block_num) states the one-event-per-block assumption. Not decided: the FEP downloader's state polling (reads contract state at 'latest'), and liveness. Added after the sub-agent rounds: C16-latest (resume index = greatest imported index), C16-watch (the PP downloader watches exactly the configured GER manager), C16-stateless (the façade keeps no answers between calls). Added after round 7: C16-fk, C16-tracked, C16-restart (shared with C04-fk, C06-tracked, C05-restart).",
 		Rules: []Rule{
 			{ID: "C16-fk", Floor: 4, Run: shared("C16-fk", c04FK), Text: "(shared with C04-fk) foreign keys on every pooled connection: a reorg removes the injected-GER rows of the dropped blocks"},
